@@ -18,6 +18,7 @@ PARSE_ONLY = ['control::lossy::buildinfo::Buildinfo::from_str', 'control::lossy:
 TOSTRING = {'aptsources::Repositories::from_str': '<Repositories as ToString>::to_string'}
 
 
+RICH_VCS = 'https://e.example/r.git -b debian/sid [packaging]'
 RICH_RELATION = 'a:any (>= 1:2-3) [b c] <d !e> <f> | g, h (<< 4)'
 
 
@@ -50,7 +51,7 @@ class C20(Harness):
     crates = ('deb822', 'control', 'copyright', 'dep3', 'aptsources')
     fuel = 500000
     bounds = {'quick': {'token_chars': 2}, 'thorough': {'token_chars': 3}}
-    assumptions = ['documents are generated from the structs\' field tables (read from the current source): a base document accepted by the real reader (values for non-string fields found by native probing) plus one optional field (solver choice of presence; relationship fields carry a relation with qualifier, epoch version, architecture list, a multi-term and a second profile group, an alternative and a second entry; string fields symbolic: one token, or a folded two-line value with / without a blank at the end of its first line), paragraphs of multi-paragraph types in both orders, an optional comment line',
+    assumptions = ['documents are generated from the structs\' field tables (read from the current source): a base document accepted by the real reader (values for non-string fields found by native probing) plus one optional field (solver choice of presence; VCS location fields carry url, branch and subpath; relationship fields carry a relation with qualifier, epoch version, architecture list, a multi-term and a second profile group, an alternative and a second entry; string fields symbolic: one token, or a folded two-line value with / without a blank at the end of its first line), paragraphs of multi-paragraph types in both orders, an optional comment line',
                    'structural violations: the role-defining paragraph removed / duplicated, an extra paragraph that is of no kind, each mandatory field removed in turn',
                    'field-by-field comparison with the lossless reader covers String / Option<String> fields exactly; fields of other types are compared through print/reparse stability',
                    'types without a printer (Buildinfo, Removal) are decided for acceptance / rejection only; apt Release has neither FromStr nor Display and is covered by C16']
@@ -70,7 +71,7 @@ class C20(Harness):
                     if not f['field'] or not f['optional']: continue
                     good = None
                     # relationship fields get a value with every optional part (negated architectures are a known finding of C10)
-                    for v in ([RICH_RELATION] if 'Relations' in f['ty'] else []) + tc.POOL:
+                    for v in ([RICH_RELATION] if 'Relations' in f['ty'] else []) + ([RICH_VCS] if 'Vcs' in f['ty'] else []) + tc.POOL:
                         ps = [[list(kv) for kv in p] for p in paras]; ps[pi].append([f['field'], v])
                         if rp.call({'op': 'total', 'entry': entry, 's': tc.render(ps)}).get('ok'): good = v; break
                     if good is None: continue
